@@ -240,7 +240,7 @@ ob('C08.wrap', ['C08', 'C10'], 'generic_modes/wrap', 'delete_wrapper_2x3', funct
    bounds='3 samples, 2 k-mers', timeout=2400, mem_gb=14)
 for f10 in (0, 9):
     ob('C13.wrap.minfreq%s' % ('0' if f10 == 0 else '0.9'), ['C13', 'C10'], 'generic_modes/wrap', 'weed_wrapper_minfreq0' + ('' if f10 == 0 else '9'), functions=[GM + 'weed', MA + 'filter'], inst='u64', needs_parts=['merge_ska_array/common'], family='C13.wrap',
-       caps=CAP23, models=['ndarray', 'hashbrown'], stubs=['MergeSkaArray::save -> Ok(()) + call counter (environment stub)'], sym='2 x 3 table over the 16 stored symbols; no weed file; min_freq = %s; no site filter, no masks' % (f10 / 10.0),
+       caps=CAP23 if f10 == 0 else {'ACAP': 3, 'SCAP': 3, 'MCAP': 1}, models=['ndarray', 'hashbrown'], stubs=['MergeSkaArray::save -> Ok(()) + call counter (environment stub)'], sym='2 x 3 (min_freq 0) or 1 x 3 (min_freq 0.9) table over the 16 stored symbols; no weed file; min_freq = %s; no site filter, no masks' % (f10 / 10.0),
        oracle='threshold floor(samples x min_freq): min_freq 0 => table saved unchanged; 0.9 => k-mers below 2 of 3 samples dropped; saved exactly once', bounds='3 samples, 2 k-mers', timeout=2400, mem_gb=14)
 for (nm, fn) in [('noconst', 'c10_filter_noconst'), ('nofilter.uk', 'c10_filter_nofilter_uk'), ('noambigorconst.am', 'c10_filter_noambigorconst_am'), ('noambig', 'c10_filter_noambig')]:
     ob('C10.A.' + nm, ['C10'], 'merge_ska_array/c10', fn, tier='quick' if nm in ('noconst', 'nofilter.uk') else 'thorough', functions=[MA + 'filter', MA + 'update_counts'], inst='u64', needs_parts=['merge_ska_array/common'],
